@@ -131,13 +131,15 @@ PROPS = {
             'PROVED (Verus, unbounded): bit layer exact (C11); every PER primitive writer == X.691 spec function and every primitive reader == functional decoder, tied by spec-level round-trip lemmas dec(enc(v) ++ tail) == (v, len) '
             'for constrained / semi-constrained / normally-small / unconstrained whole numbers and the length determinant (unit lemmas), all stated relative to an ARBITRARY prefix and tail, which is what makes back-to-back composition sound; '
             'the presence protocol of SEQUENCE/SET writer and reader for any shape (C03/C05 drivers); open-type wrap == general length + padded content, reader ends exactly at the announced end',
-            'NOT PROVED, bounded stand-in only: the 18 + 19 methods of `impl Writer for UperWriter` / `impl Reader for UperReader` that pair a primitive with the protocol step (closure-generic trait methods), '
-            'the descriptor glue and the per-schema code emitted by walker.rs. Their composition is exercised on the zoo and the shape enumeration, never counted as discharged',
+            'unit uper (Verus, every constraint instantiation): 14 of 18 Writer and 17 of 19 Reader methods of the real impls and the descriptor impls: safety tier everywhere; functional API-level contracts outside a SEQUENCE scope for '
+            'write_boolean / write_null / write_number / write_octet_string / write_bit_string / write_enumerated (bits == x691_*), read_boolean, read_number (constrained form), read_octet_string (fragment stream)',
+            'NOT PROVED, bounded stand-in only: the per-schema code emitted by walker.rs (its contract is ASSUMED at sequence::Constraint / choice::Constraint), the remaining API-level value contracts and the four restricted-string writers. '
+            'Their composition is exercised on the zoo and the shape enumeration, never counted as discharged',
             'value round trip of fragmented OCTET/BIT STRING readers: safety + consumption proved, value equality via regression probes and search only',
             'known findings KF-C01-seqof-16k, KF-C01-string-16k, KF-C01-open-type-16k: sizes >= 16K elements (which the property explicitly includes) do not round trip for SEQUENCE OF, restricted strings and large extension additions',
         ],
         'trusted_base': COMMON_TRUSTED + PER_TRUSTED,
-        'not_under_contract': ['impl Writer for UperWriter (18 methods)', 'impl Reader for UperReader (19 methods)', 'descriptor/*.rs', 'generated write_seq / read_seq / choice content (walker.rs)'],
+        'not_under_contract': UPER_NOT,
         'explanation': 'Layered decision. Layers 1-2 (bits, PER primitives, presence protocol, open types) are discharged by Verus for all inputs with contracts that are relative to an arbitrary '
                        'prefix/tail; layer 3 (trait impl + generated glue) is outside the contracts and is covered by labelled bounded stand-ins on real macro output. The check therefore decides the property '
                        'for the primitives and the protocol and only explores it for whole generated types.',
@@ -155,10 +157,11 @@ PROPS = {
             'PROVED (Verus, unbounded, inside the profile of DESIGN.md section 4): written bits == x691_* spec function for every PackedWrite method; the SEQUENCE preamble, extension bit, addition count (normally small number), '
             'addition bitmap and open-type wrapping produced by the real Scope / with_buffer code equal the X.691 19 layout for any shape',
             'the spec functions in contracts/prelude/x691.rs are a transcription of X.691 (08/2015) by hand: they ARE the oracle and are trusted; a second, executable transcription (replay/src/oracle.rs) is compared with the real code on every run',
-            'NOT PROVED, bounded stand-in only: type-level rules in `impl Writer/Reader for UperWriter/UperReader` (which primitive is called with which constants) and the constants emitted by walker.rs (MIN/MAX/EXTENSIBLE/STD_OPTIONAL_FIELDS/...)',
+            'unit uper (Verus): the type-level rules of write_boolean / write_null / write_number (x691_integer: 13.1 extension bit, 13.2.2 constrained, 13.2.4 unconstrained) / write_octet_string / write_bit_string / write_enumerated are post-conditions of the real Writer impl for every constraint instantiation',
+            'NOT PROVED, bounded stand-in only: the remaining type-level rules (CHOICE, SEQUENCE OF, character strings at the API level) and the constants emitted by walker.rs (MIN/MAX/EXTENSIBLE/STD_OPTIONAL_FIELDS/...)',
         ],
         'trusted_base': COMMON_TRUSTED + PER_TRUSTED + KANI_TRUSTED,
-        'not_under_contract': ['impl Writer for UperWriter (18 methods)', 'impl Reader for UperReader (19 methods)', 'constraint constants emitted by walker.rs'],
+        'not_under_contract': UPER_NOT + ['constraint constants emitted by walker.rs'],
         'explanation': 'Bit-exactness against X.691 is a Verus post-condition of every primitive writer and of the sequence / open-type machinery (unbounded); Kani re-checks the fixed-width primitives on the compiled crate against an '
                        'executable oracle. Whole generated types are compared with reference encodings on a bounded zoo (labelled stand-in).',
     },
@@ -174,13 +177,14 @@ PROPS = {
             'invariant pos <= limit <= 8*len on exit -- also on Err -- and that the input bytes and the visible limit are unchanged (frame): bit layer, all 13 PackedRead methods, Scope::read_from_field, '
             'the UperReader helpers (length determinant, indexes, sub-slice, with_buffer)',
             'allocation: read_bits_chunked is proved to hold at most (bits consumed so far)/8 + 16K octets at every exit, also on failure; further fragments are proved <= 64K octets each',
-            'the 19 methods of `impl Reader for UperReader` themselves and the generated read_seq glue are NOT under contract in this check (closure-generic trait; see DESIGN.md): they are exercised by the sampled decode group only',
+            'unit uper: 17 of the 19 methods of `impl Reader for UperReader` are verified for every constraint instantiation (safety tier: wf in => wf out on Ok and Err, same input, scope nesting preserved; no panic path; every loop with decreases / bounded range); read_printable_string and read_visible_string (iterator adapters) are NOT under contract and are exercised by the sampled decode group only',
+            'the generated read_seq / read_content glue is ASSUMED to satisfy the trait-level contract (fresh root scope in => well-formed reader on the same input out, exhausted scope on success)',
             'ProtobufReader (proto_read.rs: index_enclosed / read_content_offset_and_length) is NOT under contract; only the protobuf primitives (varint, fixed, tag, bytes) are proved total by Kani',
             'DER: the primitives the crate implements (length, identifier, boolean, integer) are proved total by Kani for all inputs up to 10 octets (complete for these loop bounds)',
             'a SEQUENCE OF of zero-width elements legitimately yields a count that is not bounded by the input size (X.691); not counted as unbounded work',
         ],
-        'trusted_base': COMMON_TRUSTED + PER_TRUSTED + KANI_TRUSTED,
-        'not_under_contract': ['impl Reader for UperReader (19 methods)', 'descriptor/*.rs ReadableType glue', 'generated read_seq / read_content', 'ProtobufReader', 'BitVec (descriptor/bitstring.rs)', 'DER reader beyond the primitives'],
+        'trusted_base': COMMON_TRUSTED + PER_TRUSTED + KANI_TRUSTED + UPER_TRUSTED,
+        'not_under_contract': UPER_NOT + ['ProtobufReader', 'BitVec (descriptor/bitstring.rs)', 'DER reader beyond the primitives'],
         'explanation': 'Totality and in-bounds reads are discharged per function by Verus for the whole bit and PER layers and the scope/open-type machinery of the UPER reader: every reader method has '
                        'wf(old) ==> wf(final) && same input && cursor monotone, on Ok AND on Err, with no panic path (Verus checks every index, cast and arithmetic operation), and every loop has a '
                        'decreases clause tied to the remaining input. The DER and protobuf primitives are proved total on the compiled code by Kani. What is left outside the contracts is named above and covered by a sampled search only.',
